@@ -27,6 +27,19 @@ impl<'r> Samples<'r> {
         }
     }
 
+    // The sample count is read from the record and, as there is no header here, cannot be compared
+    // to the number of sample names. This ensures each series has a value for each sample instead,
+    // which bounds the sample count by the size of the data.
+    pub(super) fn validate(&self) -> io::Result<()> {
+        let mut src = self.src;
+
+        for _ in 0..self.format_count {
+            read_series(&mut src, self.sample_count)?;
+        }
+
+        Ok(())
+    }
+
     /// Returns the number of fields per sample.
     ///
     /// # Examples
